@@ -208,7 +208,7 @@ def check_same(desc, ctx):
 # ---- minimally different content -----------------------------------------------------------------------------------------
 FIELDS = ["meta_value", "meta_key", "pressure_unit", "pressure_mode", "loading_unit", "loading_basis", "material_unit",
           "material_basis", "temperature_unit", "material_name", "material_prop", "adsorbate", "temperature",
-          "pressure_value", "loading_value", "branch_mark", "extra_value", "point_added", "rows_exchanged"]
+          "pressure_value", "loading_value", "branch_mark", "extra_value", "point_added", "rows_exchanged", "meta_empty_values"]
 
 
 def strat_diff():
@@ -240,6 +240,13 @@ def check_diff(desc, ctx):
         key = sorted(e["meta"])[k % len(e["meta"])]
         v = e["meta"][key]
         e["meta"][key] = (not v) if isinstance(v, bool) else (v + 1 if isinstance(v, (int, float)) else str(v) + "x")
+    elif f == "meta_empty_values":
+        # two different 'empty' values of different types under one key (0, '', [], {} are four different values)
+        pool = [0, "", [], {}]
+        i, j = k % 4, (k // 4) % 3
+        d["meta"]["cycle"] = pool[i]
+        e["meta"]["cycle"] = pool[(i + 1 + j) % 4]
+        a = K.build_point(d)
     elif f == "meta_key":
         e["meta"]["extra_key_z"] = 1
     elif f == "pressure_unit":
